@@ -32,6 +32,7 @@ type roundCfg struct {
 	initial          []string // paths (value "i") inserted, merged and saved as a round of their own before the exploration starts
 	base             int64    // the first round's version is base+1 (round numbers are written as store keys: byte-order boundaries)
 	syncOps          bool     // a round may end with the authoritative state of the round being merged in (MergeDB)
+	readSets         bool     // "read the pending change set" (GetDeletes + GetChanges of the open transaction, else of the block trie) is an event
 	forkSwitch       bool     // "the round just saved is abandoned and computed again on the previous round's state" (same version saved twice) is an event
 	syncOlder        bool     // with syncOps: the authoritative state was computed one version earlier than the adopting trie's version (catching up)
 }
@@ -57,6 +58,8 @@ func (e rEvent) String() string {
 		return fmt.Sprintf("MergeDB(full state of: previous round + Insert(%q,%q))", e.P, e.V)
 	case 'z':
 		return fmt.Sprintf("MergeDB(full state of: previous round + Delete(%q))", e.P)
+	case 'q':
+		return "read the pending change set (GetDeletes, GetChanges)"
 	case 'f':
 		return "fork switch: the round just saved is abandoned, its version is computed and saved again on the previous state"
 	case 'Y':
@@ -79,6 +82,9 @@ func (c roundCfg) events() []rEvent {
 	if c.forkSwitch {
 		evs = append(evs, rEvent{K: 'f'})
 	}
+	if c.readSets {
+		evs = append(evs, rEvent{K: 'q'})
+	}
 	if c.syncOps {
 		for _, p := range c.paths {
 			if c.syncOlder {
@@ -99,6 +105,8 @@ type savedRound struct {
 }
 
 type rWorld struct {
+	reads     int    // "read the pending change set" events in the current round (capped): reads change nothing the key shows
+	readMarks string // where in the round they happened (transaction number / operations so far): part of the state key
 	c         roundCfg
 	dev       string
 	pn        *util.PNodeDB
@@ -158,6 +166,7 @@ func (w *rWorld) startRound() {
 	}
 	w.T, w.tmodel, w.tops, w.txns = nil, nil, 0, 0
 	w.roundEvts = nil
+	w.reads, w.readMarks = 0, ""
 }
 
 // txnStep applies one non-save event to (B, T); shared by the explored run and by re-execution after a crash.
@@ -180,6 +189,15 @@ func txnStep(B *util.MerklePatriciaTrie, T **util.MerklePatriciaTrie, e rEvent) 
 		return err
 	case 'x':
 		*T = nil
+	case 'q':
+		// a reader of the pending sets (e.g. a validator looking at what the round has done so far)
+		t := B
+		if *T != nil {
+			t = *T
+		}
+		_ = t.GetDeletes()
+		_, _, _, _ = t.GetChanges()
+		_ = t.GetChangeCount()
 	case 'y', 'z', 'Y', 'Z':
 		// the round's authoritative state, computed elsewhere from the previous round's state, arrives as a
 		// node store holding that whole state; the block trie (with whatever it computed locally) adopts it
@@ -238,6 +256,10 @@ func (w *rWorld) apply(e rEvent, judge bool) (fail string) {
 		}
 		w.startRound()
 		return ""
+	}
+	if e.K == 'q' && w.reads < 2 {
+		w.reads++
+		w.readMarks += fmt.Sprintf("@%d.%d", w.txns, w.tops)
 	}
 	if e.K != 'S' {
 		w.roundEvts = append(w.roundEvts, e)
@@ -594,7 +616,7 @@ func (w *rWorld) key() string {
 	if w.T != nil {
 		fmt.Fprintf(&sb, "T:%s#%s#%d", mk(w.tmodel), tk(w.T), w.tops)
 	}
-	fmt.Fprintf(&sb, "txns=%d", w.txns)
+	fmt.Fprintf(&sb, "txns=%d reads=%d%s", w.txns, w.reads, w.readMarks)
 	return sb.String()
 }
 
@@ -640,6 +662,15 @@ func runRounds(rep *rt.Report, c roundCfg, deadline time.Time, agg *crashStats) 
 			}
 			if evs[op].K == 'f' {
 				return fresh && forks == 0
+			}
+			if evs[op].K == 'q' {
+				n := 0
+				for i := len(h) - 1; i >= 0 && evs[h[i]].K != 'S'; i-- {
+					if evs[h[i]].K == 'q' {
+						n++
+					}
+				}
+				return n < 2 && !synced && rounds < c.rounds
 			}
 			if synced {
 				return evs[op].K == 'S' // the adopted state is what the round saves
@@ -748,6 +779,9 @@ func C04(tier rt.Tier) int {
 	for _, c := range runs {
 		runRounds(rep, c, time.Now().Add(per), agg)
 	}
+	if !rt.SubRun && (rt.Replay == nil || rt.Replay.Raw["run"] == "big-round") {
+		bigRounds(rep, tier)
+	}
 	rep.RunVariant()
 	rep.Set("crash_points_explored", agg.crashPoints)
 	rep.Set("injected_write_failures", agg.failPoints)
@@ -785,6 +819,8 @@ func C05(tier rt.Tier) int {
 			{name: "add-then-remove-child-of-root-branch", initial: []string{"1a", "2a"}, paths: []string{"1a", "2a", "3a", "1b"}, vals: []string{"x"}, rounds: 3, txnOps: 1, maxTxns: 1, depth: 9, c05: true},
 			// a version saved twice: the first attempt of a round is abandoned (fork switch) and the round saved again, possibly as an idle round
 			{name: "fork-switch", initial: pfPaths[:2], paths: pfPaths[:3], vals: []string{"x", "y"}, rounds: 3, txnOps: 1, maxTxns: 1, depth: 9, c05: true, forkSwitch: true},
+			// somebody reads the pending deletes/changes in the middle of a round
+			{name: "reads-of-pending-sets", initial: []string{"0a11", "0b22"}, paths: []string{"0a11", "0c33", "0d44"}, vals: []string{"x"}, rounds: 1, txnOps: 4, maxTxns: 2, depth: 9, c05: true, readSets: true},
 			// one path, many rounds: a long history of the same few nodes dying and coming back
 			{name: "1path-6rounds", initial: []string{"0b22"}, paths: pfPaths[:1], vals: []string{"x", "y"}, rounds: 6, txnOps: 1, maxTxns: 1, depth: 18, c05: true},
 			{name: "rounds-65535..65537", paths: pfPaths[:2], vals: []string{"x", "y"}, rounds: 3, txnOps: 1, maxTxns: 1, depth: 9, c05: true, base: 65534},
@@ -823,4 +859,130 @@ func C05(tier rt.Tier) int {
 	rep.Set("rule", "BFS over the C04 round histories (three 1-op transactions per round make insert/delete/re-insert of identical content inside one round and across rounds part of the alphabet). At every save: no node recorded dead in any round r is reachable (independent walk over the decoded device content) from the root of any round >= r; then for EVERY prune version 1..R+1 PruneBelowVersion runs on a copy of the device: every root saved at a version >= v must read its full content, every removed key must have been recorded dead below v; for EVERY prefix of the prune's write stream the store is reopened, checked, the prune re-run and checked again")
 	rep.Assumption("crash model: prefix of the unsynced write log, atomic batches")
 	return rep.End()
+}
+
+// bigRounds: rounds that save thousands of nodes at once (a merged transaction of N inserts, a discarded one, a
+// merged rewrite of some keys, then SaveChanges + RecordDeadNodes), three rounds; after every save every saved
+// root must be complete on the store alone (reopened from its log) and every stored key the hash of its node.
+func bigRounds(rep *rt.Report, tier rt.Tier) {
+	sizes := []int{4001, 4002, 4003}
+	if tier == rt.Thorough {
+		sizes = []int{1023, 1024, 1025, 4001, 4002, 4003, 9001, 9002, 9003}
+	}
+	for _, n := range sizes {
+		rep.Add("states", 1)
+		func() {
+			desc := fmt.Sprintf("[big-round] three rounds, the first saving %d new keys at once", n)
+			fail := func(f string) {
+				rep.Violate(desc+": "+f, map[string]any{"run": "big-round", "keys": n})
+			}
+			defer func() {
+				if r := recover(); r != nil {
+					fail(fmt.Sprintf("panic: %v", r))
+				}
+			}()
+			dev := fmt.Sprintf("biground-%d", nextDev())
+			pn, err := util.NewPNodeDB(dev, "")
+			if err != nil {
+				panic(err)
+			}
+			defer resetDev(dev)
+			key := func(i int) string { return fmt.Sprintf("%08x", uint32(i)*2654435761) }
+			type saved struct {
+				ver   int64
+				root  []byte
+				model map[string]string
+			}
+			var all []saved
+			model := map[string]string{}
+			var prev []byte
+			for round := int64(1); round <= 3; round++ {
+				B := blockTrie(pn, round, prev)
+				txn := func(apply func(t *util.MerklePatriciaTrie, m map[string]string), merge bool) {
+					T := util.NewMerklePatriciaTrie(util.NewLevelNodeDB(util.NewMemoryNodeDB(), B.GetNodeDB(), false), B.GetVersion(), B.GetRoot(), statecache.NewEmpty())
+					m := copyMap(model)
+					apply(T, m)
+					if merge {
+						if err := B.MergeMPTChanges(T); err != nil {
+							panic(err)
+						}
+						model = m
+					}
+				}
+				switch round {
+				case 1:
+					txn(func(t *util.MerklePatriciaTrie, m map[string]string) {
+						for i := 0; i < n; i++ {
+							_, _ = t.Insert(util.Path(key(i)), val("v"+key(i)))
+							m[key(i)] = "v" + key(i)
+						}
+					}, true)
+				case 2:
+					txn(func(t *util.MerklePatriciaTrie, m map[string]string) {
+						for i := 0; i < 50; i++ {
+							_, _ = t.Insert(util.Path(key(n+i)), val("discarded"))
+						}
+					}, false)
+					txn(func(t *util.MerklePatriciaTrie, m map[string]string) {
+						for i := 0; i < n; i += 3 {
+							_, _ = t.Insert(util.Path(key(i)), val("w"+key(i)))
+							m[key(i)] = "w" + key(i)
+						}
+					}, true)
+				default:
+					txn(func(t *util.MerklePatriciaTrie, m map[string]string) {
+						for i := 1; i < n; i += 7 {
+							_, _ = t.Delete(util.Path(key(i)))
+							delete(m, key(i))
+						}
+					}, true)
+				}
+				dels := B.GetDeletes()
+				if err := B.SaveChanges(context.Background(), pn, false); err != nil {
+					fail(fmt.Sprintf("round %d: SaveChanges: %v", round, err))
+					return
+				}
+				if err := pn.RecordDeadNodes(dels, round); err != nil {
+					fail(fmt.Sprintf("round %d: RecordDeadNodes: %v", round, err))
+					return
+				}
+				prev = B.GetRoot()
+				all = append(all, saved{round, prev, copyMap(model)})
+				rep.Add("transitions", 1)
+				rep.Add("traces_validated_against_impl", 1)
+				rep.Add("evaluations", 1)
+				pn2, p2 := openLog(grocksdb.GetDevice(dev).Snapshot())
+				for _, s := range all {
+					t := util.NewMerklePatriciaTrie(pn2, util.Sequence(s.ver), s.root, statecache.NewEmpty())
+					if missing, err := t.HasMissingNodes(context.Background()); err != nil || missing {
+						resetDev(p2)
+						fail(fmt.Sprintf("after the save of round %d, the store reopened: the root of round %d has missing nodes (%v, %v)", round, s.ver, missing, err))
+						return
+					}
+					got := 0
+					bad := ""
+					_ = t.Iterate(context.Background(), func(ctx context.Context, path util.Path, key util.Key, node util.Node) error {
+						if vn, ok := node.(*util.ValueNode); ok {
+							got++
+							if want, ok := s.model[string(path)]; !ok || want != string(vn.GetValueBytes()) {
+								bad = fmt.Sprintf("path %s holds %q, model %q", path, vn.GetValueBytes(), want)
+							}
+						}
+						return nil
+					}, util.NodeTypeValueNode)
+					if bad != "" || got != len(s.model) {
+						resetDev(p2)
+						fail(fmt.Sprintf("after the save of round %d, the store reopened: round %d reads %d values (model %d) %s", round, s.ver, got, len(s.model), bad))
+						return
+					}
+				}
+				f := storedKeysHashed(pn2)
+				resetDev(p2)
+				if f != "" {
+					fail(f)
+					return
+				}
+			}
+		}()
+	}
 }
